@@ -230,11 +230,44 @@ func ConstArray(sort string, v Term) Term {
 func MkPtr(base, idx Term) Term { return app(SPtr, "mkp", base, idx) }
 func PBase(p Term) Term         { return app(SInt, "p.base", p) }
 func PIdx(p Term) Term          { return app(SInt, "p.idx", p) }
-func MkSlice(p, l, c Term) Term { return app(SSlice, "mk-slice", p, l, c) }
-func SlPtr(s Term) Term         { return app(SPtr, "sl.ptr", s) }
-func SlLen(s Term) Term         { return app(SInt, "sl.len", s) }
-func SlCap(s Term) Term         { return app(SInt, "sl.cap", s) }
-func Elem(s, i Term) Term       { return app(SPtr, "elem", s, i) }
+var sliceParts sync.Map // term string of (mk-slice p l c) -> [3]Term
+
+func MkSlice(p, l, c Term) Term {
+	t := app(SSlice, "mk-slice", p, l, c)
+	sliceParts.Store(t.S, [3]Term{p, l, c})
+	return t
+}
+func SlPtr(s Term) Term {
+	if v, ok := sliceParts.Load(s.S); ok {
+		return v.([3]Term)[0]
+	}
+	if s.S == "nil-slice" {
+		return TNil
+	}
+	return app(SPtr, "sl.ptr", s)
+}
+func SlLen(s Term) Term {
+	if v, ok := sliceParts.Load(s.S); ok {
+		return v.([3]Term)[1]
+	}
+	if s.S == "nil-slice" {
+		return IntLit(0)
+	}
+	return app(SInt, "sl.len", s)
+}
+func SlCap(s Term) Term {
+	if v, ok := sliceParts.Load(s.S); ok {
+		return v.([3]Term)[2]
+	}
+	if s.S == "nil-slice" {
+		return IntLit(0)
+	}
+	return app(SInt, "sl.cap", s)
+}
+
+// Elem: address of element i. Always padd(ptr, i), also for i = 0, so that quantified facts
+// about elements trigger on one shape of term.
+func Elem(s, i Term) Term { return app(SPtr, "padd", SlPtr(s), i) }
 func PtrAdd(p, i Term) Term {
 	if i.S == "0" {
 		return p
@@ -277,8 +310,8 @@ const smtPrelude = `(set-option :produce-models true)
 (declare-datatypes ((Slice 0)) (((mk-slice (sl.ptr Ptr) (sl.len Int) (sl.cap Int)))))
 (define-fun nilp () Ptr (mkp 0 0))
 (define-fun nil-slice () Slice (mk-slice nilp 0 0))
-(define-fun padd ((p Ptr) (i Int)) Ptr (mkp (p.base p) (+ (p.idx p) i)))
-(define-fun elem ((s Slice) (i Int)) Ptr (mkp (p.base (sl.ptr s)) (+ (p.idx (sl.ptr s)) i)))
+(declare-fun padd (Ptr Int) Ptr)
+(assert (forall ((p Ptr) (i Int)) (! (= (padd p i) (mkp (p.base p) (+ (p.idx p) i))) :pattern ((padd p i)))))
 (declare-fun str.len (Str) Int)
 (declare-fun str.cat (Str Str) Str)
 (declare-fun str.at (Str Int) Int)
